@@ -102,56 +102,70 @@ def run(tier):
     # 2. walk the tree on the real code, in parallel chunks
     ins = [o for o in alph["ins"] if o["f"] <= o["l"]]
     maint = alph["maint"]
-    nchunks = 12
     cargo_build("vh-driver")
-    jobs = []
-    for c in range(nchunks):
-        cfgp = os.path.join(wd, "walk-%d.json" % c)
-        outp = os.path.join(wd, "walk-%d.ndjson" % c)
-        json.dump({"tokens": [str(t) for t in UNIVERSE[nt]], "depth": depth, "init_known": [1, 2],
-                   "init_dc": ["dc1", "dc2", "dc1"], "ins": ins, "maint": maint, "chunk": c, "nchunks": nchunks},
-                  open(cfgp, "w"))
-        jobs.append((cfgp, outp))
-
-    def one(job):
-        cfgp, outp = job
-        p = run_harness("vh-driver", ["c15", "walk", cfgp, outp], timeout=3000)
-        summ = json.loads(p.stdout.strip().splitlines()[-1])
-        acc, rr, rej = validate_trace("Trace_TabletsProp", "Trace_TabletsProp.cfg", outp, timeout=3000, xmx="3g")
-        drift = sorted(set(l for l in rr.out.splitlines() if "DRIFT" in l))[:5]
-        return summ, acc, rr.distinct, rej, outp, drift
-
-    nodes = 0
-    states = 0
     drift_all = []
-    with concurrent.futures.ThreadPoolExecutor(max_workers=6) as ex:
-        results = list(ex.map(one, jobs))
-    for summ, acc, dist, rej, outp, drift in results:
-        nodes += summ.get("nodes", 0)
-        states += dist
-        drift_all += drift
-        if summ.get("panics"):
-            rows = read_ndjson(outp)
-            i = next(k for k, r in enumerate(rows) if r.get("ev") == "Panic")
-            ops, _ = describe(rows, i + 1)
-            v.violation("panic in tablet bookkeeping after history %s" % json.dumps(ops)[:400], ops)
-        if not acc:
-            rows = read_ndjson(outp)
-            ops, bad = describe(rows, rej or 1)
-            key = classify(ops, bad)
-            v.violation("history on the real TabletsInfo is not explained by the tablet-map specification: ops=%s" % (
-                json.dumps([{k: o[k] for k in o if k != "ev"} | {"op": o["ev"]} for o in ops])[:600]),
-                ops + [bad], key=key)
+
+    def walk(tokens, ins_ops, maint_ops, dep, tag, nchunks=12):
+        jobs = []
+        for c in range(nchunks):
+            cfgp = os.path.join(wd, "%s-%d.json" % (tag, c))
+            outp = os.path.join(wd, "%s-%d.ndjson" % (tag, c))
+            json.dump({"tokens": [str(t) for t in tokens], "depth": dep, "init_known": [1, 2],
+                       "init_dc": ["dc1", "dc2", "dc1"], "ins": ins_ops, "maint": maint_ops, "chunk": c, "nchunks": nchunks},
+                      open(cfgp, "w"))
+            jobs.append((cfgp, outp))
+
+        def one(job):
+            cfgp, outp = job
+            p = run_harness("vh-driver", ["c15", "walk", cfgp, outp], timeout=3000)
+            summ = json.loads(p.stdout.strip().splitlines()[-1])
+            acc, rr, rej = validate_trace("Trace_TabletsProp", "Trace_TabletsProp.cfg", outp, timeout=3000, xmx="3g")
+            drift = sorted(set(l for l in rr.out.splitlines() if "DRIFT" in l))[:5]
+            return summ, acc, rr.distinct, rej, outp, drift
+
+        nodes = 0
+        states = 0
+        with concurrent.futures.ThreadPoolExecutor(max_workers=6) as ex:
+            results = list(ex.map(one, jobs))
+        for summ, acc, dist, rej, outp, drift in results:
+            nodes += summ.get("nodes", 0)
+            states += dist
+            drift_all.extend(drift)
+            if summ.get("panics"):
+                rows = read_ndjson(outp)
+                i = next(k for k, r in enumerate(rows) if r.get("ev") == "Panic")
+                ops, _ = describe(rows, i + 1)
+                v.violation("panic in tablet bookkeeping: %s after history %s" % (
+                    json.dumps(rows[i])[:300], json.dumps(ops)[:400]), ops + [rows[i]])
+            if not acc:
+                rows = read_ndjson(outp)
+                ops, bad = describe(rows, rej or 1)
+                key = classify(ops, bad)
+                v.violation("history on the real TabletsInfo is not explained by the tablet-map specification: ops=%s" % (
+                    json.dumps([{k: o[k] for k in o if k != "ev"} | {"op": o["ev"]} for o in ops])[:600]),
+                    ops + [bad], key=key)
+        return nodes, states, jobs
+
+    nodes, states, jobs = walk(UNIVERSE[nt], ins, maint, depth, "walk")
     v.add(traces_validated_against_impl=nodes, tree_nodes=nodes, tree_depth=depth, alphabet={"ins": len(ins), "maint": len(maint), "bad_payloads": 4},
           universe=[str(t) for t in UNIVERSE[nt]], trace_validation_states=states, exhaustive=True)
     v.sample({"insert_op": ins[0], "maint_op": maint[0]})
+
+    # 2b. deeper walk over a narrow alphabet (2 universe tokens, replica lists with an unknown node,
+    #     maintenance that adds / re-creates / removes): multi-step interplay of unknown replicas and refreshes
+    ins_n = [{"f": f, "l": l, "reps": r} for (f, l) in ((2, 2), (2, 4), (4, 4)) for r in ([[1, 0], [2, 1]], [[2, 0], [3, 1]])]
+    maint_n = [m for m in maint if sorted(m["known"]) != [1, 2] or list(m["dc"]) != ["dc1", "dc2", "dc1"]]
+    dn = 5 if thorough else 4
+    nodes2, states2, _ = walk([-7, 8], ins_n, maint_n, dn, "deep")
+    v.add(traces_validated_against_impl=nodes2, deep_walk={"nodes": nodes2, "depth": dn, "ins": len(ins_n), "maint": len(maint_n)},
+          trace_validation_states=states + states2)
 
     # 4. random long histories over i64
     n, ln = (1500, 14) if thorough else (150, 12)
     rp = os.path.join(wd, "random.ndjson")
     p = run_harness("vh-driver", ["c15", "random", n, ln, seed(), rp], timeout=3000)
     acc, rr, rej = validate_trace("Trace_TabletsProp", "Trace_TabletsProp.cfg", rp, timeout=3000)
-    drift_all += sorted(set(l for l in rr.out.splitlines() if "DRIFT" in l))[:5]
+    drift_all.extend(sorted(set(l for l in rr.out.splitlines() if "DRIFT" in l))[:5])
     if not acc:
         rows = read_ndjson(rp)
         # history = ops since the last Init
